@@ -265,3 +265,7 @@ def _r06_6(res, P, cfgname):
             else:
                 res.fail("R06.6", cfgname, key, "%s shifts an IBig right with `>>`: on a negative value this floors (−4.5 → −5) instead of truncating toward zero like the digit-shift helpers (shr_digits / split_digits) do" % f["p"], span_loc(t["sp"]))
     res.floor("R06.6", cfgname, n, 3, "IBig right-shift sites in dashu_float / dashu_ratio")
+
+
+LEVEL = LEVEL + ' Also (R06.4) the f32 / f64 encode kernels and the to_fNN splits agree structurally, (R06.5) every half test compares a remainder with the divisor it came from, (R06.6) IBig `>>` (flooring) appears only at reviewed exact sites.'
+TECHNIQUE = 'impl-table lattice rule for infallible From; dominance of shifted-out-bit tests; sibling skeleton agreement (f32 ~ f64); half-test pairing by backward slices; reviewed inventory of flooring shifts'
